@@ -475,6 +475,11 @@ func runC06(c *eng.Ctx) {
 	}
 	c.Floor(12)
 
+	// ---- R06.7 acquire/release pairing
+	c.Rule("R06.7", "K2")
+	ruleLockPairing(c, "server/metadata.go", "server/stream.go", "server/fsm.go")
+	c.Floor(30)
+
 	// ---- R06.6 replay safety
 	c.Rule("R06.6", "K2")
 	if fn := c.Fn("server.(*metadataAPI).RemoveStream"); fn != nil {
